@@ -157,8 +157,9 @@ def remove_negligible_negative_values(material):
     if negative_index:
         material_sum = abs(material).sum()
         if material_sum > 1e-16:
-            negligible = material[negative_index] / material_sum > -1e-16
-            material[negligible] = 0. 
+            for i in zip(*negative_index): # Judge each negative entry on its own
+                key = i if len(i) > 1 else i[0]
+                if material[key] / material_sum > -1e-16: material[key] = 0.
         else:
             material[negative_index] = 0. 
 
